@@ -567,7 +567,59 @@ def run(tier='quick', seed=0, jobs=None):
             r['bound'] += f' -- not run (wall budget): {sk}'
         _flush_classes(r)
         out.append(fx.finish_row(r))
+    out.append(row_stale_buffer(tier, seed))
     return out
+
+
+CL_BUFFER = ("the mapping stage called with a results buffer directory that still holds per-chunk files of an earlier "
+             "(failed) call returns exactly what it returns with a fresh directory")
+
+
+def row_stale_buffer(tier, seed):
+    """election_runner.run_type_assignment_on_h5ad with results_output_path = a directory in which an earlier
+    call left '<r0>_<r1>_assignment.json' files (inside its own result_buffer_* sub-directory and directly)"""
+    row = fx.new_row('cell_type_mapper.type_assignment.election_runner.run_type_assignment_on_h5ad#stale_buffer',
+                     'seeded-random', "world of 6 leaves / 30 genes / 20 query cells; n_processors {1,2}; stale chunk files "
+                     "of another query (same row ranges, other cells) planted in a sub-directory and at top level",
+                     [CL_BUFFER])
+    try:
+        with fx.scratch() as d:
+            world = m.make_world(str(d), int(seed) + 77)
+            for nproc in (1, 2):
+                scr = tempfile.mkdtemp(dir=str(d), prefix='scratch_')
+                fresh = tempfile.mkdtemp(dir=str(d), prefix='fresh_')
+                with fx.quiet():
+                    want = m.run_election_direct(world, nproc, scr, results_output_path=fresh, chunk_size=7,
+                                                 bootstrap_iteration=3)
+                for where in ('sub-directory', 'top level'):
+                    shared = tempfile.mkdtemp(dir=str(d), prefix='shared_')
+                    stale_dir = os.path.join(shared, 'result_buffer_left_by_failed_run') if where == 'sub-directory' else shared
+                    os.makedirs(stale_dir, exist_ok=True)
+                    stale = [dict(r, cell_id='stale_' + str(r['cell_id'])) for r in want[:7]]
+                    for name in ('0_7_assignment.json', '7_14_assignment.json', '900_907_assignment.json'):
+                        with open(os.path.join(stale_dir, name), 'w') as f:
+                            json.dump(stale, f)
+                    args = dict(n_processors=nproc, stale_files_in=where)
+                    row['cases'] += 1
+                    try:
+                        with fx.quiet():
+                            got = m.run_election_direct(world, nproc, scr, results_output_path=shared, chunk_size=7,
+                                                        bootstrap_iteration=3)
+                    except Exception as e:   # noqa
+                        if not fx.escaped_from_package(e):
+                            raise
+                        row['accepted'] += 1
+                        fx.add_failure(row, CL_BUFFER, 'raises', args, fx.package_error_text(e, 300))
+                        continue
+                    row['accepted'] += 1
+                    fx.note_case(row, args)
+                    if json.dumps(got, sort_keys=True, default=str) != json.dumps(want, sort_keys=True, default=str):
+                        ids = [r.get('cell_id') for r in got]
+                        fx.add_failure(row, CL_BUFFER, 'ensures', args,
+                                       f"{len(got)} records (fresh directory: {len(want)}); ids {ids[:4]}...")
+    except BaseException:   # noqa
+        fx.add_error(row, traceback.format_exc()[-1500:])
+    return fx.finish_row(row)
 
 
 if __name__ == '__main__':
